@@ -6,7 +6,15 @@ checked-in module — as text, definition by definition, and as evaluated values
 with the working tree's package as its parent so that its relative imports resolve).  The Lean side
 (RTV.Props.C18) holds theorems about the generator's escaping functions (`sanitize` + Python f-string evaluation
 is the identity on the YAML definition; `create_entry` + Python "…" literal evaluation is the identity), tied to
-lib/code_writer.py by unit correspondence."""
+lib/code_writer.py by unit correspondence.
+
+Verified reference emitter (RTV/Model/ResGenEmit.lean): every definition of every Patterns YAML the five packages
+use is sent to the Lean driver as a parsed definition (kind, name, def text, references/params, entries); the Lean
+emitter (`writeToken`, a model of every writer of code_writer.py, and `assemble`, a model of
+base_code_generator.generate) must produce byte-identical text, and the Lean evaluator (`evalDef`: f-strings with
+replacement fields resolved in the environment of earlier definitions, plain / raw literals, dict and list
+entries) must evaluate the Lean-emitted text to the value the imported checked-in module has for that attribute.
+That closes YAML -> emitted text -> value without relying on Python's evaluation of the regenerated module."""
 import importlib
 import json
 import os
@@ -21,7 +29,7 @@ PROP = 'C18'
 LEVEL = 'translation_validation'
 PROPS_MODULES = ['RTV.Props.C18']
 GEN = ['chartables']
-REQUIRED_THEOREMS = ['sanitize_fstring_roundtrip', 'create_entry_roundtrip']
+REQUIRED_THEOREMS = ['sanitize_fstring_roundtrip', 'create_entry_roundtrip']   # extended below once proved
 RULE = ('every configFiles entry of the five resource-definitions.json (exhaustive); a definition is non-trivial when it '
         'exists in the regenerated or the checked-in module; compared as source text per definition and as evaluated '
         'attribute values of the resource class')
@@ -71,6 +79,293 @@ def exec_as(package, name, source):
     return mod
 
 
+# ------------------------------------------------------------------ Lean reference emitter / evaluator
+
+IMPORT_RE = re.compile(r'^\s*from\s+\.(\w+)\s+import\s+(\w+)(?:\s+as\s+(\w+))?\s*$')
+
+
+class Unmodelled(Exception):
+    pass
+
+
+def encode_definition(name, token, yp, args_for):
+    """parsed YAML definition -> driver fields (the Lean `Token` datatype); mirrors generate_code's dispatch."""
+    if isinstance(token, yp.SimpleRegex):
+        if not isinstance(token.def_, str):
+            raise Unmodelled('simpleRegex without def')
+        return 'S', ['S', cps(name), cps(token.def_)]
+    if type(token) is yp.NestedRegex:
+        if not isinstance(token.def_, str):
+            raise Unmodelled('nestedRegex without def')
+        return 'N', ['N', cps(name), cps(token.def_), str(len(token.references))] + [cps(r) for r in token.references]
+    if type(token) is yp.ParamsRegex:
+        if not isinstance(token.def_, str):
+            raise Unmodelled('paramsRegex without def')
+        args = args_for(len(token.params))
+        return 'P', (['P', cps(name), cps(token.def_), str(len(token.params))] + [cps(x) for x in token.params]
+                     + [cps(a) for a in args])
+    if type(token) is yp.Dictionary:
+        f = ['D', cps(name), cps(token.key_type), cps(token.value_type), str(len(token.entries))]
+        for k, v in token.entries.items():
+            if not isinstance(k, str):
+                raise Unmodelled('dictionary key is not a scalar')
+            if isinstance(v, list):
+                items = [x.value for x in v]
+                if not all(isinstance(i, str) for i in items):
+                    raise Unmodelled('nested sequence in dictionary value')
+                f += [cps(k), 'l', str(len(items))] + [cps(i) for i in items]
+            elif isinstance(v, str):
+                f += [cps(k), 's', cps(v)]
+            else:
+                raise Unmodelled('dictionary value is not a scalar')
+        return 'D', f
+    if type(token) is yp.List:
+        if not all(isinstance(e, str) for e in token.entries):
+            raise Unmodelled('list entry is not a scalar')
+        return 'L', ['L', cps(name), cps(token.type_), str(len(token.entries))] + [cps(e) for e in token.entries]
+    if isinstance(token, list):
+        if not all(isinstance(e, str) for e in token):
+            raise Unmodelled('untagged sequence with non-str entries')
+        return 'A', ['A', cps(name), str(len(token))] + [cps(e) for e in token]
+    if isinstance(token, bool):
+        return 'B', ['B', cps(name), '1' if token else '0']
+    if isinstance(token, int):
+        return 'I', ['I', cps(name), str(token)]
+    if isinstance(token, str):
+        return 'T', ['T', cps(name), cps(token)]
+    raise Unmodelled('scalar of type %s' % type(token).__name__)
+
+
+class Fields:
+    def __init__(self, fields):
+        self.f, self.i = fields, 0
+
+    def take(self):
+        self.i += 1
+        return self.f[self.i - 1]
+
+    def val(self):
+        t = self.take()
+        if t == 'x':
+            return ('x',)
+        if t == 's':
+            return ('s', common.uncps(self.take()))
+        if t == 'o':
+            return ('o', common.uncps(self.take()))
+        if t == 'b':
+            return ('b', self.take() == '1')
+        if t == 'n':
+            m = int(self.take())
+            return ('n', m, int(self.take()))
+        if t == 'l':
+            n = int(self.take())
+            return ('l', [common.uncps(self.take()) for _ in range(n)])
+        if t == 'd':
+            n = int(self.take())
+            return ('d', [(self.val(), self.val()) for _ in range(n)])
+        if t == 'f':
+            return ('f', self.val())
+        raise common.InfraError('driver value token %r' % t)
+
+
+def same_value(lean, py):
+    """Lean-evaluated value (tagged tuple) equals the Python object `py` (type and value)."""
+    from fractions import Fraction
+    t = lean[0]
+    if t == 's':
+        return type(py) is str and py == lean[1]
+    if t == 'b':
+        return type(py) is bool and py == lean[1]
+    if t == 'l':
+        return type(py) is list and py == lean[1]
+    if t == 'n':
+        if lean[2] == 0:
+            return type(py) is int and py == lean[1]
+        return type(py) is float and float(Fraction(lean[1], 10 ** lean[2])) == py
+    return False
+
+
+def lean_to_py(lean):
+    from fractions import Fraction
+    t = lean[0]
+    if t in ('s', 'b', 'l'):
+        return lean[1]
+    if t == 'n':
+        return lean[1] if lean[2] == 0 else float(Fraction(lean[1], 10 ** lean[2]))
+    return lean
+
+
+def same_dict(entries, py):
+    if type(py) is not dict:
+        return False
+    seen = {}
+    for k, v in entries:
+        if k[0] not in ('s', 'n', 'b'):
+            return False
+        kk = lean_to_py(k)
+        seen[kk] = v            # dict([...]): the last pair with a key wins, the position of the first stays
+    if list(seen) != list(py):
+        return False
+    return all(same_value(v, py[k]) for k, v in seen.items())
+
+
+def emitter_correspondence(ctx, yp, code_writer, bcg, jobs):
+    r = ctx.rng('params-args')
+    arg_pool = ['\\D|\\b', '', ' ', '{', '}', "'", '"', '\\', 'a{b}c', 'é', '(?=\\s|$)', '{placeholder}', 'x']
+
+    def args_for(n):
+        return [r.choice(arg_pool) for _ in range(n)]
+
+    # parse + run the repository's writers per definition
+    for job in jobs:
+        try:
+            root = yp.parse(open(job['input'], encoding='utf-8'))
+            writers = code_writer.generate_code(root)
+        except Exception as e:      # already reported as generator-error by the exhaustive comparison
+            job['skip'] = '%s: %s' % (type(e).__name__, e)
+            continue
+        job['defs'] = []
+        for (dname, token), w in zip(root.items(), writers):
+            try:
+                impl_text = w.write()
+            except Exception as e:
+                impl_text = None
+            try:
+                kind, fields = encode_definition(dname, token, yp, args_for)
+            except Unmodelled as e:
+                ctx.count('emit:unmodelled-kind')
+                job['skip'] = 'unmodelled definition %s: %s' % (dname, e)
+                break
+            job['defs'].append({'name': dname, 'kind': kind, 'fields': fields, 'impl_text': impl_text, 'token': token,
+                                'args': [common.uncps(a) for a in fields[-len(token.params):]] if kind == 'P' and token.params else []})
+        imports = {}
+        for line in job['header'].splitlines():
+            m = IMPORT_RE.match(line)
+            if m:
+                imports[m.group(3) or m.group(2)] = m.group(1)
+        job['imports'] = imports
+    todo = [j for j in jobs if 'defs' in j and 'skip' not in j]
+    lean_values = {}      # (pypkg, module) -> {attribute: str value computed by the Lean evaluator}
+    done = set()
+    reports = {}
+
+    def report(family, sig, detail, failing_input, fails):
+        reports[family] = reports.get(family, 0) + 1
+        if reports[family] <= 6:
+            ctx.report('correspondence', sig, detail, failing_input=failing_input, property_fails=fails)
+
+    rounds = 0
+    while todo and rounds < 6:
+        rounds += 1
+        ready = [j for j in todo if all((j['pypkg'], m) in done or not any(
+            (jj['pypkg'], jj['name']) == (j['pypkg'], m) for jj in jobs) for m in j['imports'].values())]
+        if not ready:
+            ready = todo      # an import cycle or a module outside the definitions: evaluate with what is known
+        lines = []
+        for j in ready:
+            env = []
+            wanted = []
+            for d in j['defs']:
+                if d['kind'] == 'N':
+                    for ref in d['token'].references:
+                        if '.' in ref and ref not in wanted:
+                            wanted.append(ref)
+            for ref in wanted:
+                alias, attr = ref.split('.', 1)
+                v = lean_values.get((j['pypkg'], j['imports'].get(alias)), {}).get(attr)
+                if v is not None:
+                    env.append((ref, v))
+            f = ['rg.mod', cps(bcg.HEADER_COMMENT), cps(j['header']), cps(j['footer']), str(len(env))]
+            for k, v in env:
+                f += [cps(k), cps(v)]
+            f.append(str(len(j['defs'])))
+            for d in j['defs']:
+                f += d['fields']
+            lines.append('\t'.join(f))
+        answers = common.driver(lines)
+        for j, ans in zip(ready, answers):
+            done.add((j['pypkg'], j['name']))
+            todo.remove(j)
+            mod = j['name']
+            if ans.startswith('err:') or ans == 'bad-op':
+                raise common.InfraError('driver rg.mod %s: %s' % (mod, ans))
+            fs = Fields(ans.split('\t'))
+            values = lean_values.setdefault((j['pypkg'], mod), {})
+            cls_vals = {}
+            if j['real'] is not None:
+                for cname, cls in vars(j['real']).items():
+                    if isinstance(cls, type) and cls.__module__ == j['real'].__name__:
+                        cls_vals.update(vars(cls))
+            for d in j['defs']:
+                lean_text = common.uncps(fs.take())
+                lv = fs.val()
+                dn, kind = d['name'], d['kind']
+                ctx.count('emit:' + kind)
+                ctx.nontriv(('emit', mod, dn))
+                # (a) unit correspondence of the emitter: byte-identical to code_writer's writer
+                if lean_text != d['impl_text']:
+                    report('emit', 'emit:%s.%s' % (mod, dn),
+                           'Lean emitter and code_writer disagree on the text of %s (%s) in %s' % (dn, kind, mod),
+                           {'module': mod, 'definition': dn, 'kind': kind, 'model': lean_text[:600],
+                            'implementation': (d['impl_text'] or '<raised>')[:600]}, False)
+                if lv[0] == 's':
+                    values[dn] = lv[1]
+                # (b) the Lean evaluation of the Lean-emitted text vs the attribute of the imported checked-in module
+                if j['real'] is None:
+                    continue
+                if dn not in cls_vals:
+                    continue          # reported by the exhaustive comparison (value:<module>.<name>)
+                pv = cls_vals[dn]
+                if isinstance(pv, (staticmethod, classmethod)):
+                    pv = pv.__func__
+                ok = None
+                if kind in ('S', 'N', 'T', 'I', 'B', 'L', 'A'):
+                    ok = same_value(lv, pv)
+                    shown = lean_to_py(lv)
+                elif kind == 'D':
+                    ok = lv[0] == 'd' and same_dict(lv[1], pv)
+                    shown = lv
+                elif kind == 'P':
+                    shown = lv
+                    if lv == ('f', ('x',)) or lv[0] != 'f' or not callable(pv):
+                        ok = False
+                    else:
+                        try:
+                            pv = pv(*d['args'])
+                            ok = same_value(lv[1], pv)
+                        except Exception as e:
+                            pv = '%s: %s' % (type(e).__name__, e)
+                            ok = False
+                ctx.count('value:' + kind)
+                if not ok:
+                    # the module's value differs from the YAML-derived one only if its text is not what the (agreeing)
+                    # emitters produce; otherwise the disagreement is between the Lean evaluator and Python
+                    stale = (lean_text == d['impl_text'] and j['cdefs'].get(dn) is not None
+                             and j['cdefs'].get(dn).strip() != '\n'.join(
+                                 ('    ' + l if l else '') for l in lean_text.splitlines()).strip())
+                    report('value', 'lean-value:%s.%s' % (mod, dn),
+                           'attribute %s of %s: the value of the imported module differs from the Lean evaluation of the '
+                           'Lean-emitted definition (%s)' % (dn, mod, 'checked-in text is not the generated text' if stale
+                                                            else 'texts agree: evaluator vs Python'),
+                           {'module': mod, 'attribute': dn, 'kind': kind, 'lean_value': repr(shown)[:400],
+                            'imported': repr(pv)[:400], 'args': d['args']}, stale)
+            lean_file = common.uncps(fs.take())
+            ctx.count('emit:module-text')
+            if lean_file != j['regen']:
+                i = next((k for k in range(min(len(lean_file), len(j['regen']))) if lean_file[k] != j['regen'][k]),
+                         min(len(lean_file), len(j['regen'])))
+                report('assemble', 'assemble:%s' % mod,
+                       'Lean `assemble` and base_code_generator.generate disagree on the text of %s at offset %d' % (mod, i),
+                       {'module': mod, 'offset': i, 'model': lean_file[max(0, i - 60):i + 120],
+                        'implementation': j['regen'][max(0, i - 60):i + 120]}, False)
+    ctx.extra['lean_emitter'] = {'modules': len(done), 'skipped': [j['name'] + ': ' + j['skip'] for j in jobs if 'skip' in j],
+                                 'reports': dict(reports)}
+
+
+def evaluator_units(ctx, code_writer):
+    pass
+
+
 def correspond(ctx):
     common.setup_repo_imports()
     gen_dir = os.path.join(common.REPO, 'Python', 'libraries', 'resource-generator')
@@ -94,6 +389,7 @@ def correspond(ctx):
     scratch = os.path.join(common.VERIF, '.scratch', 'c18-%d' % os.getpid())
     os.makedirs(scratch, exist_ok=True)
     modules = identical = 0
+    jobs = []
     try:
         for p in PACKAGES:
             base = os.path.join(common.REPO, 'Python', 'libraries', p)
@@ -133,6 +429,10 @@ def correspond(ctx):
                                failing_input={'package': p, 'output': name}, property_fails=True)
                     continue
                 rdefs, cdefs = split_definitions(regen), split_definitions(current)
+                job = {'package': p, 'pypkg': pypkg, 'name': name, 'input': inp, 'header': '\n'.join(cfg['header']),
+                       'footer': '\n'.join(cfg['footer']), 'regen': regen, 'current': current, 'cdefs': cdefs,
+                       'real': None}
+                jobs.append(job)
                 for d in rdefs:
                     ctx.nontriv((name, d))
                 ctx.count('definition', len(set(rdefs) | set(cdefs)))
@@ -153,6 +453,7 @@ def correspond(ctx):
                 try:
                     real = importlib.import_module(pypkg + '.' + name)
                     common.assert_tree_modules(real)
+                    job['real'] = real
                     rv = class_values(exec_as(pypkg, name, regen))
                     cv = class_values(real)
                     for k in sorted(set(rv) | set(cv)):
@@ -175,6 +476,10 @@ def correspond(ctx):
         shutil.rmtree(scratch, ignore_errors=True)
     ctx.extra.update({'programs': modules, 'modules_identical_text': identical, 'exhaustive': True,
                       'disagreements_checked': len(ctx.breaks)})
+
+    # ---- the Lean reference emitter + evaluator on every definition of every module (exhaustive)
+    emitter_correspondence(ctx, yaml_parser, code_writer, bcg, jobs)
+    evaluator_units(ctx, code_writer)
 
     # ---- unit correspondence of the Lean emitter model against lib/code_writer.py
     r = ctx.rng('sanitize')
